@@ -375,7 +375,11 @@ pub fn parent_main(check: &dyn TCheck, args: &Args) -> ! {
     }
     ev.rule = check.rule();
     for (k, v) in &counts {
-        ev.probe(k, *v);
+        if let Some(f) = k.strip_prefix("fault:") {
+            ev.fired(f, *v);
+        } else {
+            ev.probe(k, *v);
+        }
     }
     for (k, v) in &notes {
         if k.starts_with("fault:") {
